@@ -61,7 +61,9 @@ extern long g_num_id, g_num_val;
 void c_dispatchValue(void *p, void *c, int tgt)
 REQ_GS(p)
 REQ_GC
-ASSIGNS_GS_CALLEE
+/* a value never touches labels, pending jumps or the mark table (proved for the function itself: c_dispatchValue_top) */
+__CPROVER_assigns(g_gs->out.code._n, __CPROVER_object_whole(GCODE), g_gs->errors._n, __CPROVER_object_whole(g_gs->errors._d),
+                  g_top->register_state._n, __CPROVER_object_whole(REGS))
 ENS_MONO
 /* an integer literal that does not fit the word is reported (proved for the function itself: c_dispatchValue_top) */
 __CPROVER_ensures((c) == 0 || CN(c)->t != NT_NUMBER || CN(c)->tok._id != g_num_id || g_num_val < INT_MAX || GNERR > OLD(GNERR)) /*@C20,C04*/;
@@ -137,6 +139,25 @@ __CPROVER_ensures(model_last_map < NMARK && MARKS[model_last_map].first._id == N
                   (unsigned long)MARKS[model_last_map].second < NLAB &&
                   LABS[MARKS[model_last_map].second] == (GOP(GNC - 1) == OP_POTENTIAL_BREAK ? (int)GNC - 1 : (int)GNC)) /*@C01,C07,C03*/;
 
+/* ------------------------------------------------------------------ dispatchIf: IF x = c THEN GOTO label
+ *   op1 := value(x) ; op2 := value(c) ; TEST cond, op1, op2 ; JMPC label, cond                                        */
+void c_dispatchIf(void *p, void *c)
+REQ_GS(p)
+__CPROVER_requires(NODE_OK(c) && NODE_OK(((node_t *)(c))->left) && NODE_OK(((node_t *)(c))->right) && NODE_OK(((node_t *)(((node_t *)(c))->right))->left))
+REQ_MARK_PICKS
+ASSIGNS_GS
+ENS_MONO
+/* ends with the equality test on three registers of the frame and the conditional jump on the test result to the label
+ * of the named mark (pending for backpatching) */
+__CPROVER_ensures(GNC >= OLD(GNC) + 2 && GOP(GNC - 2) == OP_TEST && GOP(GNC - 1) == OP_JMPC &&
+                  GPAR(GNC - 1, PI_jmpc_source) == GPAR(GNC - 2, PI_test_target) && NBP >= OLD(NBP) + 1 && BPS[NBP - 1] == (int)GNC - 1) /*@C01,C03*/
+__CPROVER_ensures(GPAR(GNC - 2, PI_test_target) >= 0 && (unsigned long)GPAR(GNC - 2, PI_test_target) < NREG &&
+                  GPAR(GNC - 2, PI_test_op1) >= 0 && (unsigned long)GPAR(GNC - 2, PI_test_op1) < NREG &&
+                  GPAR(GNC - 2, PI_test_op2) >= 0 && (unsigned long)GPAR(GNC - 2, PI_test_op2) < NREG) /*@C03*/
+__CPROVER_ensures(model_last_map < NMARK && MARKS[model_last_map].first._id == ((node_t *)(((node_t *)(((node_t *)(c))->right))->left))->tok._id &&
+                  MARKS[model_last_map].second == GPAR(GNC - 1, PI_jmpc_offset) && GPAR(GNC - 1, PI_jmpc_offset) >= 0 &&
+                  (unsigned long)GPAR(GNC - 1, PI_jmpc_offset) < NLAB) /*@C01,C03*/;
+
 /* ------------------------------------------------------------------ dispatchAssign / dispatchArgs */
 void c_dispatchAssign(void *p, void *c)
 REQ_GS(p)
@@ -174,8 +195,7 @@ ARGS_CONTRACT(c_dispatchArgs_callee, )
  * Light callee contracts (weakenings of the contracts enforced elsewhere, without their memory-shape preconditions). */
 void c_advanceLine_callee(void *p, int line, long file_id)
 REQ_GS(p)
-ASSIGNS_GS_CALLEE
-__CPROVER_assigns(g_gs->fs.name, g_gs->fs.line)
+__CPROVER_assigns(g_gs->out.code._n, __CPROVER_object_whole(GCODE), g_gs->fs.name, g_gs->fs.line)
 ENS_MONO
 /* at most one instruction, a breakpoint site (contracts/gen_tbl.c: c_advanceLine) */
 __CPROVER_ensures(GNC <= OLD(GNC) + 1 && (GNC == OLD(GNC) || GOP(GNC - 1) == OP_POTENTIAL_BREAK) && NLAB == OLD(NLAB) && NBP == OLD(NBP) &&
@@ -183,7 +203,7 @@ __CPROVER_ensures(GNC <= OLD(GNC) + 1 && (GNC == OLD(GNC) || GOP(GNC - 1) == OP_
 extern long g_num_id, g_num_val; /* T5: value of the digit string with this identity (contracts/gen_misc.c) */
 int c_strToInt_callee(void *p, void *c)
 REQ_GS(p)
-ASSIGNS_GS_CALLEE
+__CPROVER_assigns(g_gs->errors._n, __CPROVER_object_whole(g_gs->errors._d))
 ENS_MONO
 __CPROVER_ensures(GNC == OLD(GNC) && NLAB == OLD(NLAB) && NBP == OLD(NBP) && NREG == OLD(NREG) && GNERR <= OLD(GNERR) + 1)
 /* c_strToInt: a literal that does not fit the word is reported */
@@ -209,6 +229,9 @@ __CPROVER_requires(NFA <= g_gs->funcAddrs._cap)
 ASSIGNS_GS
 __CPROVER_assigns(g_gs->fs.name, g_gs->fs.line)
 ENS_MONO
+/* a value never touches labels, pending jumps or the mark table */
+__CPROVER_ensures(NLAB == OLD(NLAB) && NBP == OLD(NBP) && NMARK == OLD(NMARK) && LOOPS == OLD(LOOPS)) /*@C01*/
+__CPROVER_ensures(g_lab >= NLAB || LABS[g_lab] == OLD(LABS[g_lab])) /*@C01*/
 /* VALUE -> id : copy of the variable's register (target := source + 0) */
 __CPROVER_ensures((c) == 0 || CN(c)->t != NT_NAME ||
                   (GNC >= OLD(GNC) + 1 && GOP(GNC - 1) == OP_ADD_CONST && GPAR(GNC - 1, PI_add_target) == tgt && GPAR(GNC - 1, PI_add_constant) == 0 &&
@@ -426,4 +449,6 @@ void h_dispatchWhile(void) { void *p = setup(); void *c; w_dispatchWhile(p, c); 
 void h_dispatchGoto(void) { void *p = setup(); void *c; g_w = nondet_ulong(); w_dispatchGoto(p, c); CANARY; }
 void h_dispatchMark(void) { void *p = setup(); void *c; g_w = nondet_ulong(); w_dispatchMark(p, c); CANARY; }
 void h_dispatchAssign(void) { void *p = setup(); void *c; w_dispatchAssign(p, c); CANARY; }
+void w_dispatchIf(void *p, void *c);
+void h_dispatchIf(void) { void *p = setup(); void *c; g_w = nondet_ulong(); w_dispatchIf(p, c); CANARY; }
 void h_dispatchArgs(void) { void *p = setup(); void *c; g_top->argnum = nondet_int(); w_dispatchArgs(p, c); CANARY; }
